@@ -213,6 +213,7 @@ func checkC11(c *Ctx) {
 
 	// ---- O2 point-in-time reads ----------------------------------------------------------------
 	c.checkSnapshotReads("O2 reads")
+	c.checkTimerSinkAppendOnly("O2 sink-append-only")
 	// one entry per metric needs one scope per identity: the root must be found in whichever shard a
 	// derivation ending in the root's identity hashes to (shared with C05 O1)
 	c.checkRootInEveryShard("O1 root-in-every-shard")
